@@ -158,6 +158,9 @@ def gen(rng, tier):
         if rng.random() < 0.6:
             s += rng.choice("eE") + rng.choice(["", "+", "-"]) + str(rng.choice([0, 1, 5, 10, 22, 23, 100, 300, 308, 309, 320, 340, 400, rng.randrange(0, 700)]))
         cases.append(Case("json.f64 " + hx(s), tags=("f64",), nontrivial=False))
+    # which kind a document is, and which field sets are refused: every subset of the pricing / access-list fields
+    for j, sub, wc in txgen.field_mixes(rng):
+        cases.append(Case("tx.parse " + hx(j), tags=("field-mix", "fields:" + sub)))
     # equivalent JSON spellings (white space, \\uXXXX escapes in keys and in string values) of valid and malformed documents:
     # the same document, so the same fields or the same refusal
     from vlib import jsonspell
